@@ -31,7 +31,7 @@ LEVEL_NOTE = "Trusts lib/wire.py; body contents sampled; multi-byte corruptions 
 TECHNIQUE = "exhaustive single-byte fault injection + runtime differential oracle (reference block codec)"
 SHARDS = {"quick": 8, "thorough": 16}
 TIMEOUT = {"quick": 300, "thorough": 3000}
-FLOORS = {"oracle.corruption_multi": 1000, "reassembly.system_bytes_reused_after_completion": 10, "oracle.split": 300, "oracle.block_codec": 1000, "oracle.corruption": 2000, "oracle.reassembly": 20,
+FLOORS = {"oracle.two_endpoints": 10, "oracle.corruption_multi": 1000, "reassembly.system_bytes_reused_after_completion": 10, "oracle.split": 300, "oracle.block_codec": 1000, "oracle.corruption": 2000, "oracle.reassembly": 20,
           "reassembly.interleaved_messages": 20}
 EXHAUSTIVE_ALL = False
 
@@ -282,6 +282,69 @@ def _reassembly(ctx, S, nrounds):
     rig.close()
 
 
+def _two_endpoints(ctx, rounds):
+    """Two protocol objects in one process (two lines, or a fresh object after a line was given up in the middle of a message)
+    receive multi-block messages that carry the same system bytes: each must reassemble exactly its own message."""
+    from lib.secsirig import SecsIRig
+    import secsgem.common
+
+    rng = ctx.rng
+
+    def message(system, nblocks, rbit=False):
+        body = rng.randbytes(244 * (nblocks - 1) + rng.randint(1, 244))
+        h = dict(device_id=rng.randint(0, 0x7FFF), rbit=rbit, stream=rng.choice([1, 2, 6, 7]), wbit=False, function=rng.choice([1, 3, 5, 11]), system=system)
+        blocks = [wire.secs1_block(wire.secs1_header(**rf), d) for rf, d in
+                  wire.secs1_split(h["device_id"], h["rbit"], h["stream"], h["wbit"], h["function"], h["system"], body)]
+        return h, body, blocks
+
+    for rnd in range(rounds):
+        system = rng.getrandbits(32)
+        r1 = SecsIRig(device_type=secsgem.common.DeviceType.EQUIPMENT)
+        r2 = SecsIRig(device_type=secsgem.common.DeviceType.EQUIPMENT)
+        variant = rng.choice(["interleaved_on_two_lines", "abandoned_then_repeated_on_a_new_object"])
+        ctx.count("oracle.two_endpoints")
+        ctx.case(("two-endpoints", variant, system), nontrivial=True)
+        try:
+            if variant == "interleaved_on_two_lines":
+                a, b = message(system, rng.choice([2, 3, 4])), message(system, rng.choice([2, 3]))
+                order = [(r1, x) for x in a[2]]
+                pos = sorted(rng.sample(range(len(order) + 1), len(b[2])))
+                for k, (p, blk) in enumerate(zip(pos, b[2])):
+                    order.insert(p + k, (r2, blk))
+                want = {id(r1): a, id(r2): b}
+            else:
+                a, b = message(system, 3), message(system, rng.choice([2, 3]))
+                order = [(r1, a[2][0]), (r1, a[2][1])] + [(r2, x) for x in b[2]]      # line 1 given up after two blocks
+                want = {id(r2): b}
+            ok = True
+            for rig, raw in order:
+                trace, answer = rig.send_block_to_sut(raw)
+                if answer != wire.ACK:
+                    ctx.violation("valid-block-not-acknowledged", {"variant": variant, "trace": trace})
+                    ok = False
+                    break
+            if not ok:
+                continue
+            for rig in (r1, r2):
+                exp = want.get(id(rig))
+                rig.wait(lambda: len(rig.delivered) >= (1 if exp else 0), timeout=3.0)
+                if exp and not rig.delivered:
+                    rig.confirm_absent(lambda: len(rig.delivered) >= 1)
+                got = list(rig.delivered)
+                if exp is None:
+                    if got:
+                        ctx.violation("two-endpoints:incomplete-message-delivered", {"variant": variant, "delivered": len(got)})
+                    continue
+                h, body, _ = exp
+                if len(got) != 1 or got[0]["body"] != body or got[0]["system"] != system or (got[0]["stream"], got[0]["function"]) != (h["stream"], h["function"]):
+                    ctx.violation("two-endpoints:message-mixed-with-blocks-of-another-protocol-object",
+                                  {"variant": variant, "delivered": len(got), "body_len_want": len(body),
+                                   "body_len_got": [len(g["body"]) for g in got], "system": hex(system)})
+        finally:
+            r1.close()
+            r2.close()
+
+
 def run(ctx):
     import types
 
@@ -311,3 +374,4 @@ def run(ctx):
         ctx.count("boundary.max_blocks")
     _corruption(ctx, S)
     _reassembly(ctx, S, 12 if ctx.quick else 2500)
+    _two_endpoints(ctx, 12 if ctx.quick else 400)
